@@ -11,9 +11,9 @@ func init() {
 		rl := map[string]string{"retries": "retries", "i": "i", "timeout": "timeout", "httperror.Temporary(err)": "temporary", "retry": "retry"}
 		rt := map[string]string{"httperror.Temporary(err)": "bool", "retry": "bool"}
 		o.condOf(funcSpec{dir: w, recv: "WorkerToken", name: "doRetry", coqName: "retry_use_default",
-			params: "(retries : Z)", retType: "bool", leaves: rl, types: rt}, "retries", 0)
+			params: "(retries : Z)", retType: "bool", leaves: rl, types: rt}, "if:retries", 0)
 		o.condOf(funcSpec{dir: w, recv: "WorkerToken", name: "doRetry", coqName: "retry_loop_cond",
-			params: "(i retries : Z)", retType: "bool", leaves: rl, types: rt}, "retries", 1)
+			params: "(i retries : Z)", retType: "bool", leaves: rl, types: rt}, "for:retries", 0)
 		o.condOf(funcSpec{dir: w, recv: "WorkerToken", name: "doRetry", coqName: "retry_wait_first",
 			params: "(i : Z)", retType: "bool", leaves: rl, types: rt}, "i != 0")
 		o.condOf(funcSpec{dir: w, recv: "WorkerToken", name: "doRetry", coqName: "retry_is_retryable",
